@@ -749,6 +749,16 @@ func InfixExpandArray(env *Zlisp, arr *SexpArray) ([]Sexp, error) {
 	xs := []Sexp{}
 
 	for {
+		// skip empty statements: stray or leading semicolons
+		for !pr.IsEOF() {
+			if _, isSemi := pr.NextToken.(*SexpSemicolon); !isSemi {
+				break
+			}
+			pr.Advance()
+		}
+		if pr.IsEOF() {
+			break
+		}
 		x, ok, err := pr.LabeledFor(env)
 		if err != nil {
 			return nil, err
